@@ -14,7 +14,7 @@ from gen import progs
 
 PROP = "C01"
 HARNESS_BINS = ["eval"]
-COQ_TARGETS = ["Properties/C01.vo", "Core/Sem.vo"]
+COQ_TARGETS = ["Properties/C01.vo", "Core/Sem.vo", "Core/StrProofs.vo"]
 TRUSTED = ["coq/Core/Sem.v is the reference semantics (hand-written; validated against CPython 3.11 on every generated program)",
            "tools/gen/progs.py (program generator and the two renderers: source text / Gallina term)",
            "cases.v route: programs are evaluated by vm_compute inside coqc"]
@@ -161,7 +161,7 @@ def compare(ctx, entries):
     cases = [{"src": e["src"], "opts": {}} for e in entries]
     rc, log, impl = sv.run_harness_sharded(ctx, "eval", cases, timeout=900)
     ctx.log("implementation ran %d programs (rc=%s)" % (len(cases), rc))
-    py, plog = run_python(ctx, [e["src"] for e in entries])
+    py, plog = run_python(ctx, [e.get("pysrc", e["src"]) for e in entries])
     # programs whose run is large (long loops, big objects) are not sent to the Gallina interpreter, whose unary/inductive
     # data would need gigabytes; they are counted as skipped
     small = [i for i in range(len(entries))
@@ -205,7 +205,9 @@ def compare(ctx, entries):
                 ok = False
         # reference validation against CPython (never a violation by itself)
         pyd = None
-        if py is not None:
+        if e.get("nopy"):
+            st["starlark_only_repr"] = st.get("starlark_only_repr", 0) + 1
+        elif py is not None:
             p = py[i]
             st["py_checked"] += 1
             pok = p["tr"] == mtr and (("ok" in p["out"]) == ("ok" in mout))
@@ -246,18 +248,93 @@ def compare(ctx, entries):
 
 
 def gen_entries(ctx, n, **kw):
+    """Generated programs with the string layer on.  One program in ten is in `repr_str` mode: repr / %r / !r of values that
+    contain strings, where Starlark quotes with double quotes and Python with single quotes - those programs are compared
+    implementation vs reference only (`nopy`), all others are also validated against CPython."""
     entries = []
     agg = {}
     for i in range(n):
         seed = ctx.rng.getrandbits(48)
-        g = progs.generate(seed, **kw)
+        nopy = ctx.rng.random() < 0.1
+        g = progs.generate(seed, features=("strings", "repr_str") if nopy else ("strings",), **kw)
         for k, v in g["stats"].items():
             agg[k] = agg.get(k, 0) + v
-        entries.append({"id": "s%d" % seed, "variant": "module", "src": g["src"], "coq": g["coq"]})
+        if g["uses_strings"]:
+            agg["programs_with_string_operations"] = agg.get("programs_with_string_operations", 0) + 1
+        entries.append({"id": "s%d" % seed, "variant": "module", "src": g["src"], "coq": g["coq"], "nopy": nopy,
+                        "pysrc": progs.python_source_of(g["prog"])})
         wprog = progs.wrap_in_function(g["prog"])
         wsrc, wn = progs.source_of(wprog)
-        entries.append({"id": "s%d" % seed, "variant": "in-function", "src": wsrc, "coq": progs.coq_block(wn)})
+        entries.append({"id": "s%d" % seed, "variant": "in-function", "src": wsrc, "coq": progs.coq_block(wn), "nopy": nopy,
+                        "pysrc": progs.python_source_of(wprog)})
     return entries, agg
+
+
+# ---- non-ASCII strings: implementation vs CPython only (the reference models strings as byte strings and is not consulted) --------
+UNI_ALPHA = "aZ9 ,äöüéñçßøЖдяλπ世界€😀"
+
+
+def unicode_cases(ctx, n):
+    """One-line programs over non-ASCII text: len, indexing, slicing, upper/lower, find/rfind/count, split, in, comparison,
+    join, startswith - all on CODE POINTS (starlark-rust stores UTF-8; Python stores code points)."""
+    r = ctx.rng
+    lit = lambda k: progs.q("".join(r.choice(UNI_ALPHA) for _ in range(k)))
+    ix = lambda: str(r.choice([0, 1, 2, 3, -1, -2, -3, 5, 9, -9]))
+    out = []
+    for _ in range(n):
+        s = lit(r.choice([0, 1, 2, 3, 5, 8, 13]))
+        p = lit(r.choice([0, 1, 1, 1, 2]))
+        k = r.randrange(12)
+        if k == 0:
+            e = "len(%s)" % s
+        elif k == 1:
+            e = "(%s + %s)[%s]" % (s, lit(1), r.choice(["0", "-1"]))
+        elif k == 2:
+            e = "%s[%s:%s%s]" % (s, r.choice(["", ix()]), r.choice(["", ix()]), r.choice(["", "", ":2", ":-1", ":-2", ":3"]))
+        elif k == 3:
+            e = "%s.%s()" % (s, r.choice(["upper", "lower"]))
+        elif k == 4:
+            # (an empty needle gets at most a start index: known findings corpus:str-find-*)
+            e = "%s.%s(%s%s)" % (s, r.choice(["find", "rfind", "count"]), p,
+                                 r.choice(["", ", " + ix()] + ([", %s, %s" % (ix(), ix())] if p != '""' else [])))
+        elif k == 5:
+            e = "%s.%s(%s)" % (s, r.choice(["split", "rsplit"]), r.choice(["", lit(1), lit(1) + ", 1", "None, 1"]))
+        elif k == 6:
+            e = "%s in %s" % (p, s)
+        elif k == 7:
+            e = "%s %s %s" % (s, r.choice(["<", "<=", "==", ">"]), lit(r.choice([0, 1, 2, 3])))
+        elif k == 8:
+            e = "%s.join([%s, %s])" % (p, s, lit(2))
+        elif k == 9:
+            e = "%s.%s(%s%s)" % (s, r.choice(["startswith", "endswith"]), p, r.choice(["", ", " + ix()]))
+        elif k == 10:
+            e = "%s.%s(%s)" % (s, r.choice(["strip", "lstrip", "rstrip"]), p)
+        else:
+            e = "(%s.replace(%s, %s), %s.partition(%s + \"x\"), [%s.elems()][0:0], %s * 2)" % (s, p, lit(1), s, p, s, s)
+        out.append("emit(%s)\n" % e)
+    return out
+
+
+def compare_unicode(ctx, srcs):
+    """-> (failures, stats)"""
+    rc, log, impl = sv.run_harness_sharded(ctx, "eval", [{"src": x, "opts": {}} for x in srcs], timeout=600)
+    py, plog = run_python(ctx, [x.replace(".elems()", "") for x in srcs])
+    failures, agree = [], 0
+    for i, src in enumerate(srcs):
+        r = impl[i]
+        if r is None or "panic" in (r or {}):
+            failures.append({"key": "impl-crash", "what": "the evaluator crashed/panicked on %r: %s" % (src, r), "replay": {"usrc": src, "impl": r}})
+            continue
+        if py is None:
+            continue
+        st = r["steps"][0]
+        if st["tr"] == py[i]["tr"] and ("ok" in st["out"]) == ("ok" in py[i]["out"]):
+            agree += 1
+        else:
+            failures.append({"key": "unicode:" + re.sub(r"\"(?:[^\"\\]|\\.)*\"|-?\d+", "_", src.strip())[:60],
+                             "what": "non-ASCII string program %r: implementation %s | CPython %s" % (src, (st["tr"], st["out"]), (py[i]["tr"], py[i]["out"])),
+                             "replay": {"usrc": src, "impl": st, "python": py[i]}})
+    return failures, {"programs": len(srcs), "agree_with_cpython": agree}
 
 
 def corpus_entries():
@@ -269,10 +346,13 @@ def corpus_entries():
     m = importlib.util.module_from_spec(spec)
     spec.loader.exec_module(m)
     out = []
-    for name, prog in m.CASES:
+    for case in m.CASES:
+        name, prog = case[0], case[1]
+        opts = case[2] if len(case) > 2 else {}
         for variant, pr in (("module", prog), ("in-function", progs.wrap_in_function(prog))):
             src, n = progs.source_of(pr)
-            out.append({"id": "corpus:" + name, "variant": variant, "src": src, "coq": progs.coq_block(n)})
+            out.append({"id": "corpus:" + name, "variant": variant, "src": src, "coq": progs.coq_block(n),
+                        "pysrc": progs.python_source_of(pr), "nopy": bool(opts.get("nopy"))})
     return out
 
 
@@ -283,6 +363,8 @@ def correspond(ctx):
     entries = corpus + entries
     corpus = sorted({e["id"] for e in corpus})
     failures, st = compare(ctx, entries)
+    ufail, ust = compare_unicode(ctx, unicode_cases(ctx, ctx.n(1500, 20000)))
+    failures += ufail
     soft = [f for f in failures if f.get("soft")]
     hard = [f for f in failures if not f.get("soft")]
     for f in soft[:5]:
@@ -305,6 +387,10 @@ def correspond(ctx):
         "out_of_fuel_skipped": st["nofuel"],
         "skipped_too_large_for_model": st.get("skipped_large", 0),
         "input_distribution": agg,
+        "programs_with_string_operations": agg.get("programs_with_string_operations", 0) * 2,
+        "string_operations_generated": agg.get("string_op", 0) + agg.get("planted_string_failure", 0),
+        "starlark_only_repr_programs_not_sent_to_cpython": st.get("starlark_only_repr", 0),
+        "non_ascii_stream": ust,
         "samples": [entries[0]["src"], entries[-1]["src"]],
         "corpus": corpus,
     }
@@ -319,6 +405,9 @@ def search(ctx, broken):
 
 def replay(ctx, rep):
     r = rep.get("replay", {})
+    if "usrc" in r:
+        failures, ust = compare_unicode(ctx, [r["usrc"]])
+        return {"coverage": {"evaluations": 1, "distinct_nontrivial": 1, "samples": [r["usrc"]]}, "failures": failures}
     if "src" not in r or "coq" not in r:
         return {"coverage": {}, "failures": []}
     failures, st = compare(ctx, [{"id": "replay", "variant": "replay", "src": r["src"], "coq": r["coq"]}])
@@ -328,17 +417,21 @@ def replay(ctx, rep):
 META = {
     "category": "proof",
     "level_text": "Partial. The reference semantics MiniStar (coq/Core: syntax, values/store, fuelled big-step interpreter for the Python-shared "
-                  "core incl. closures with cells, comprehensions, slices, list/dict methods, argument binding, iteration locks) is a Gallina "
-                  "function; proved: fuel monotonicity of eval/call/exec and of whole programs (the outcome of a terminating program is well "
+                  "core incl. closures with cells, comprehensions, slices, list/dict methods, argument binding, iteration locks, and the "
+                  "string layer: 30 string methods, % formatting, str.format with keyword arguments, repr/str of every value, ord/chr) "
+                  "is a Gallina function; proved: split/join round trip, strip idempotence, find = first occurrence, replace laws, "
+                  "partition, % and format laws for ALL strings, and fuel monotonicity of eval/call/exec and of whole programs (the outcome of a terminating program is well "
                   "defined) for ALL programs. The property itself - the real parser+compiler+VM agree with the reference on every program - is "
                   "decided by correspondence: type-directed generated programs (with planted run-time failures) run at module level and "
                   "wrapped in a function on the real evaluator and by vm_compute on the reference; transcripts and outcome (failure kind + "
                   "innermost failing line) must be equal. CPython 3.11 validates the reference on every program.",
     "level_note": "Trusted: Coq kernel; coq/Core/Sem.v as the meaning of programs (validated against CPython); tools/gen/progs.py; harness bin "
-                  "eval. Not modelled: the real bytecode compiler/VM (tie only), floats, string methods/formatting (excluded from the "
-                  "generator until modelled), programs too large for the Gallina interpreter are skipped and counted. Documented "
+                  "eval. Not modelled: the real bytecode compiler/VM (tie only), floats; strings are byte strings (modelled "
+                  "programs are ASCII; a separate non-ASCII stream compares implementation and CPython on code-point operations); "
+                  "repr of values containing strings is compared implementation-vs-reference only (Starlark quotes differ from "
+                  "Python's); programs too large for the Gallina interpreter are skipped and counted. Documented "
                   "Starlark/Python differences excluded from the subset: repeated literal dict keys, negative list.pop index, bool/int "
-                  "mixing, string iteration, mutation during iteration.",
+                  "mixing, string iteration, mutation during iteration, and the string differences listed in coq/Core/DIFFS.md.",
     "technique": "Coq reference interpreter + meta-theory; differential correspondence implementation vs vm_compute reference; CPython validates the reference",
     "design_ref": "DESIGN.md section 4 C01, section 3.2",
 }
